@@ -1267,7 +1267,14 @@ class RpcServer:
                         # Resolve SHM pointer on input batch
                         input_batch, resolved_cm, release_fn = resolve_shm_batch(input_batch, resolved_cm, shm)
 
-                        input_batch = _coerce_input_batch(input_batch, input_schema)
+                        try:
+                            input_batch = _coerce_input_batch(input_batch, input_schema)
+                        except Exception:
+                            # The input never becomes ``prev_input``, so nothing
+                            # else would free the SHM region it arrived in.
+                            if release_fn is not None:
+                                release_fn()
+                            raise
 
                         ab_in = AnnotatedBatch(batch=input_batch, custom_metadata=resolved_cm, _release_fn=release_fn)
                         if prev_input is not None:
